@@ -29,8 +29,8 @@ namespace GoCrypt.CodecIR
 open GoCrypt.Codec GoCrypt.Gen.codecIR GoCrypt.CIR
 open GoCrypt.TIIR (RType Res fiType)
 
-/-- The translator understood every statement and expression of the five functions. -/
-theorem no_unknown_nodes : program.procs.map (·.body.unknowns) = [0, 0, 0, 0, 0] := by decide
+/-- The translator understood every statement and expression of the nine functions (five of marshal.go, four of unmarshal.go). -/
+theorem no_unknown_nodes : program.procs.map (·.body.unknowns) = [0, 0, 0, 0, 0, 0, 0, 0, 0] := by decide
 
 /-- Loop bound above the pointer depths and the number of fields; `base:` values as `strconv` accepts them
 (true of every `TypeInfo` that `typeInfoOf` produces; `strconv.FormatInt` PANICS otherwise). -/
